@@ -93,7 +93,11 @@ func (c c05) Run(ts *tape.Set, tier Tier) *Result {
 func (c05) runFile(ts *tape.Set, tier Tier) *Result {
 	res := &Result{}
 	shape := ts.T("shape")
-	spec := gen.DrawFileSpec(shape, gen.FileOpts{MaxSize: 12 << 10, AllowOdd: true, MultiBlock: true})
+	maxSize := 12 << 10
+	if tier == Thorough {
+		maxSize = 48 << 10
+	}
+	spec := gen.DrawFileSpec(shape, gen.FileOpts{MaxSize: maxSize, AllowOdd: true, MultiBlock: true})
 	fragMode := shape.Pick(2, 1, 1, 1)
 	fragSeed := shape.Raw()
 	nOps := 1 + shape.Intn(10)
